@@ -10,6 +10,7 @@ import (
 	"fmt"
 	"go/ast"
 	"go/parser"
+	"go/printer"
 	"go/token"
 	"go/types"
 	"reflect"
@@ -307,3 +308,58 @@ var posPrefixRe = regexp.MustCompile(`^[\w./-]+:\d+:\d+: `)
 
 // stripPos removes the file:line:col prefix of a go/types or go/parser message (finding keys must not depend on positions).
 func stripPos(msg string) string { return posPrefixRe.ReplaceAllString(msg, "") }
+
+// Decl returns the canonical form of the top-level declaration (function, or var/const/type spec) called name.
+func (c *canonPkg) Decl(name string) string {
+	for _, d := range c.file.Decls {
+		switch x := d.(type) {
+		case *ast.FuncDecl:
+			if canonFuncName(x) == name {
+				return c.Node(x)
+			}
+		case *ast.GenDecl:
+			for _, s := range x.Specs {
+				switch sp := s.(type) {
+				case *ast.ValueSpec:
+					if len(sp.Names) > 0 && sp.Names[0].Name == name {
+						return x.Tok.String() + " " + c.Node(sp)
+					}
+				case *ast.TypeSpec:
+					if sp.Name.Name == name {
+						return "type " + c.Node(sp)
+					}
+				}
+			}
+		}
+	}
+	return ""
+}
+
+// Text returns the source text of the top-level declaration called name (for messages).
+func (c *canonPkg) Text(name string) string {
+	for _, d := range c.file.Decls {
+		if canonDeclNameOf(d) == name {
+			var b strings.Builder
+			printer.Fprint(&b, c.fset, d)
+			return b.String()
+		}
+	}
+	return ""
+}
+
+func canonDeclNameOf(d ast.Decl) string {
+	switch x := d.(type) {
+	case *ast.FuncDecl:
+		return canonFuncName(x)
+	case *ast.GenDecl:
+		for _, s := range x.Specs {
+			if vs, ok := s.(*ast.ValueSpec); ok && len(vs.Names) > 0 {
+				return vs.Names[0].Name
+			}
+			if ts, ok := s.(*ast.TypeSpec); ok {
+				return ts.Name.Name
+			}
+		}
+	}
+	return ""
+}
